@@ -2114,6 +2114,38 @@ class Canon:
             return flat
         return block(stmts)
 
+    def mapping_mixins(self, stmts, module, cls):
+        """inside a class that derives from (Mutable)Mapping without defining `get`, whose __getitem__ is `return self.A[key]`:
+        self.get(k[, d]) is the mixin `try: return self[k] except KeyError: return d`, i.e. self.A.get(k[, d])"""
+        if cls is None or not any(u(b_).split("[")[0].split(".")[-1] in ("Mapping", "MutableMapping") for k_ in cls.mro for b_ in k_.node.bases):
+            return stmts
+        if cls.find_method("get")[1] is not None:
+            return stmts
+        _, gi = cls.find_method("__getitem__")
+        if gi is None or gi.decorator_list or len(gi.args.args) != 2:
+            return stmts
+        gb = real_body(gi)
+        sn, kn = gi.args.args[0].arg, gi.args.args[1].arg
+        if not (len(gb) == 1 and isinstance(gb[0], ast.Return) and isinstance(gb[0].value, ast.Subscript) and isinstance(gb[0].value.slice, ast.Name)
+                and gb[0].value.slice.id == kn and isinstance(gb[0].value.value, ast.Attribute) and isinstance(gb[0].value.value.value, ast.Name)
+                and gb[0].value.value.value.id == sn):
+            return stmts
+        attr = gb[0].value.value.attr
+
+        class G(ast.NodeTransformer):
+            def visit_Call(self, node):
+                self.generic_visit(node)
+                f = node.func
+                if isinstance(f, ast.Attribute) and f.attr == "get" and isinstance(f.value, ast.Name) and f.value.id == "self" and 1 <= len(node.args) <= 2 \
+                        and not node.keywords and not any(isinstance(a, ast.Starred) for a in node.args):
+                    args = list(node.args)
+                    if len(args) == 2 and isinstance(args[1], ast.Constant) and args[1].value is None:
+                        args = args[:1]
+                    return ast.copy_location(ast.Call(func=ast.Attribute(value=ast.Attribute(value=ast.Name(id="self", ctx=ast.Load()), attr=attr, ctx=ast.Load()),
+                                                                         attr="get", ctx=ast.Load()), args=args, keywords=[]), node)
+                return node
+        return [ast.fix_missing_locations(G().visit(s_)) for s_ in stmts]
+
     def expand_replace(self, stmts, module):
         """dataclasses.replace(K(a, b), f=v) is K(a, b) with field f given as v;  replace(x, f=v, g=w) on an object of the only dataclass
         that has fields f and g (no subclasses) is K(<the other fields read from x>, f=v, g=w) when x is then evaluated once"""
@@ -2628,6 +2660,8 @@ class Canon:
         b = lift_ifexp(b)
         b = lift_walrus(b)
         b = norm.first_match_to_next(b)
+        b = norm.try_lookup_to_get(b)
+        b = self.mapping_mixins(b, module, cls)
         b = norm.lower_reduce(b)
         b = self.explicit_base_init(b, module, cls)
         look = self._lookup(module, cls, fn, set(inline), set(keep), accessors, supers)
